@@ -14,6 +14,7 @@ THEOREMS = ["Pq.C14.get_set_cov", "Pq.C14.set_get_cov", "Pq.C14.get_set_mean", "
             "Pq.C14.xpxp_xxpp_inverse", "Pq.C14.purity_hbar_free"]
 FILES = ["PqVerif/Model/GaussRep.lean", "PqVerif/Lemmas/GaussRepLaws.lean", "PqVerif/Props/C14.lean"]
 HBARS = [0.5, 1.0, 2.0, 3.7, 10.0]
+EXTREME_HBARS = [1e-20, 1.0546e-34, 1e12]
 
 
 def fl(a):
@@ -186,6 +187,17 @@ def search(ctx, n):
                 if not same:
                     fails.append((f"hbar:{kname}", f"{kname} depends on hbar: {np.round(rv, 6) if not isinstance(rv, str) else rv} at hbar={ref['_hbar']}, "
                                   f"{np.round(v, 6) if not isinstance(v, str) else v} at hbar={hbar} (same m, C, G)", dict(desc, hbar=[ref["_hbar"], hbar], observable=kname)))
+        # extreme hbar (SI-like units; seed C14-5: an absolute tolerance applied to an hbar-scaled quantity): the Fock-space
+        # observables are functions of the dimensionless (m, C, G) only
+        for hbar in EXTREME_HBARS:
+            a = clone(pq, st, hbar)
+            ext = {"particle_detection": float(np.real(a.get_particle_detection_probability(ref["_occ"]))),
+                   "threshold_detection": float(np.real(a.get_threshold_detection_probability(tuple(min(o, 1) for o in ref["_occ"])))),
+                   "density_matrix": np.asarray(a.density_matrix), "fock_probabilities": np.asarray(a.fock_probabilities)}
+            for kname, v in ext.items():
+                if not close(v, ref[kname], 1e-7):
+                    fails.append((f"hbar-extreme:{kname}", f"{kname} depends on hbar: differs by {np.abs(np.asarray(v) - np.asarray(ref[kname])).max():.3g} between hbar={ref['_hbar']} and hbar={hbar} (same m, C, G)",
+                                  dict(desc, hbar=[ref["_hbar"], hbar], observable=kname)))
     return fails
 
 
